@@ -6,7 +6,8 @@
 EXTENDS FindProgram, TLC, Json, IOUtils, SequencesExt
 CONSTANTS MaxSteps,     \* statements executed before the one the laws look at
           VBIN,         \* versions (0 = absent) of name "a" in the [binaries] sections
-          VA,           \* ... in dirs / root directory / PATH
+          VXD,          \* ... in the dirs: directory
+          VA,           \* ... in the root directory / PATH
           VSD,          \* ... in the subdirectory
           ProvA,        \* provider styles of "a"
           BProfiles,    \* what exists of the second name "b" (see BProfile)
@@ -34,7 +35,7 @@ BProfile(p) == CASE p = "nowhere" -> Nowhere
                  [] p = "provpath1" -> Pr(0, 0, 0, 0, 0, 1, "ovr")
 AProfiles == IF CrossFamily
              THEN { Pr(nat, crs, 0, 0, 0, path, prov) : nat \in VBIN, crs \in VBIN, path \in VA, prov \in ProvA }
-             ELSE { Pr(nat, 0, xd, root, sd, path, prov) : nat \in VBIN, xd \in VA, root \in VA, sd \in VSD, path \in VA, prov \in ProvA }
+             ELSE { Pr(nat, 0, xd, root, sd, path, prov) : nat \in VBIN, xd \in VXD, root \in VA, sd \in VSD, path \in VA, prov \in ProvA }
 ByName(pa, pb, f(_)) == [x \in AllNames |-> IF x = "a" THEN f(pa) ELSE IF x = "b" THEN f(pb) ELSE f(Nowhere)]
 MkEnv(wm, fff, pa, pb) ==
     [wm |-> wm, fff |-> fff, cross |-> CrossFamily,
